@@ -224,6 +224,18 @@ int reb_binary_diff(char* buf1, size_t size1, char* buf2, size_t size2, char** b
                 for (unsigned int i=0;i<field1.size/sizeof(struct reb_particle);i++){
                     fields_differ |= reb_particle_diff(pb1[i],pb2[i]);
                 }
+            }else if (strcmp(reb_binary_field_descriptor_for_type(field1.type).name, "var_config")==0){
+                // Compare everything except the pointer to the simulation.
+                struct reb_variational_configuration* vb1 = (struct reb_variational_configuration*)(buf1+pos1);
+                struct reb_variational_configuration* vb2 = (struct reb_variational_configuration*)(buf2+pos2);
+                for (unsigned int i=0;i<field1.size/sizeof(struct reb_variational_configuration);i++){
+                    fields_differ |= (vb1[i].order != vb2[i].order);
+                    fields_differ |= (vb1[i].index != vb2[i].index);
+                    fields_differ |= (vb1[i].testparticle != vb2[i].testparticle);
+                    fields_differ |= (vb1[i].index_1st_order_a != vb2[i].index_1st_order_a);
+                    fields_differ |= (vb1[i].index_1st_order_b != vb2[i].index_1st_order_b);
+                    fields_differ |= (vb1[i].lrescale != vb2[i].lrescale);
+                }
             }else{
                 if (memcmp(buf1+pos1,buf2+pos2,field1.size)!=0){
                     fields_differ = 1;
